@@ -173,7 +173,7 @@ def parse_vc(text):
                 parts = rest.split(None, 2)
                 sec = Section(kw, arg='%s %s' % (parts[1], parts[2]), n=int(parts[0]), src_line=ln)
                 cur.sections.append(sec)
-            elif kw in ('before', 'after'):
+            elif kw in ('before', 'after', 'after-stmt'):
                 k, _, pat = rest.partition(' ')
                 sec = Section(kw, arg=pat.strip(), n=int(k), src_line=ln)
                 cur.sections.append(sec)
@@ -668,12 +668,32 @@ def weave_item(repo, spec):
             if not is_block:
                 add_after(be, '/*R6<*/}/*>R6*/')
             rules['R6'] += 1
-        elif sec.kind in ('before', 'after'):
+        elif sec.kind in ('before', 'after', 'after-stmt'):
             pt = [t.text for t in tokenize(sec.arg)]
             hits = _find_pattern(toks, pt, 0, n)
             if sec.n >= len(hits):
                 raise Undecided('%s: pattern %r occurrence %d not found in %s' % (sec.kind, sec.arg, sec.n, spec.name))
-            if sec.kind == 'before':
+            if sec.kind == 'after-stmt':
+                # behind the statement that contains the pattern: the next ';' at the nesting depth of the hit
+                depth = 0
+                k2 = hits[sec.n]
+                end = None
+                while k2 < n:
+                    tx = toks[k2].text
+                    if toks[k2].kind == 'punct' and tx in ('(', '[', '{'):
+                        depth += 1
+                    elif toks[k2].kind == 'punct' and tx in (')', ']', '}'):
+                        depth -= 1
+                        if depth < 0:
+                            break
+                    elif toks[k2].kind == 'punct' and tx == ';' and depth == 0:
+                        end = k2
+                        break
+                    k2 += 1
+                if end is None:
+                    raise Undecided('after-stmt: no statement end behind pattern %r in %s' % (sec.arg, spec.name))
+                add_after(end, ghost(sec, 'S'))
+            elif sec.kind == 'before':
                 # ghost statements go in front of anything a dialect rule puts at the same token (e.g. the R4 head)
                 ins_before.setdefault(hits[sec.n], []).insert(0, ghost(sec, 'S'))
             else:
